@@ -3,6 +3,7 @@
 package c06
 
 import (
+	"errors"
 	"bytes"
 	"fmt"
 	"io"
@@ -156,7 +157,7 @@ func check(c Case) *vk.Failure {
 	if fl := vk.Try("Unmarshal at end of stream", func() { n, _, err = pbcmpl.Unmarshal(r, last.Fresh()) }); fl != nil {
 		return fl
 	}
-	if n != 0 || err == nil || oerrors.Cause(err) != io.EOF {
+	if n != 0 || err == nil || (oerrors.Cause(err) != io.EOF && !errors.Is(err, io.EOF)) { // "cause": either wrapping convention
 		return vk.Failf("end-of-stream", "Unmarshal after the last frame returned (n=%d, err=%v), want (0, cause io.EOF)", n, err)
 	}
 	return nil
